@@ -417,8 +417,11 @@ def run(ck):
         "file identity = file content (every source file has a distinct content)",
     ]
     # ---- 1. laws and design model
-    ck.laws("Helpers_Laws", cfg_text='CONSTANTS\n  Comps = {"a", "b", "..", ".", ""}\n  MaxLen = %d\n' % ck.pick(3, 4),
-            label="Laws:RelTarget over all small path pairs", timeout=ck.pick(300, 3000))
+    ck.laws("Helpers_Laws", cfg_text='CONSTANTS\n  Comps = {"a", "b", "..", ".", ""}\n  MaxLen = 3\n',
+            label="Laws:RelTarget, all path pairs <= 3 components over {a,b,..,.,empty}", timeout=ck.pick(300, 1500))
+    if not ck.quick:
+        ck.laws("Helpers_Laws", cfg_text='CONSTANTS\n  Comps = {"a", "b", "..", "."}\n  MaxLen = 4\n',
+                label="Laws:RelTarget, all path pairs <= 4 components over {a,b,..,.}", timeout=3000)
     invs = "TreeShape OnePerPath JudgeAcceptsReference Idempotent UnderDestination ModesRequested".split()
     ck.mc("Helpers_MC", cfg_text=f"SPECIFICATION Spec\nCONSTANT MaxSteps = {ck.pick(2, 3)}\n" + "".join(f"INVARIANT {i}\n" for i in invs),
           workers=4, timeout=ck.pick(300, 3000), label=f"MC:Helpers_MC MaxSteps={ck.pick(2, 3)}")
@@ -444,7 +447,7 @@ def run(ck):
             by_tag = {}
             for c in cases:
                 by_tag.setdefault(c["tag"], []).append(c)
-            cases = [c for tag in sorted(by_tag) for c in r_.sample(by_tag[tag], min(len(by_tag[tag]), 12))]
+            cases = [c for tag in sorted(by_tag) for c in r_.sample(by_tag[tag], min(len(by_tag[tag]), 7))]
         else:
             ck.exhaustive = True
         tid = 0
@@ -452,7 +455,7 @@ def run(ck):
             do(c, tid)
             tid += 1
         ck.sample(dict(direction="spec->code", eapi=cases[0]["eapi"], script=render_script(cases[0], "$EBD").splitlines()[11:]))
-        for _ in range(ck.pick(60, 1500)):
+        for _ in range(ck.pick(30, 800)):
             c = rand_case(r_)
             do(c, tid, r_)
             tid += 1
